@@ -218,6 +218,14 @@ TIES = {
                                      "generic_sink", "generic_parse", "generic_serialize", "generic_round_trip", "generic_drivers"],
                            "theorems": ["constructed_stream_is_related", "C01_end_to_end_generic_triples", "C01_end_to_end_generic_quads",
                                         "C01_end_to_end_generic_graphs"]},
+    # C07 / C15 on translated source: the grouped parser yields one sink per frame holding what the Decoder yields for it; its sinks'
+    # statements concatenated are the flat parser's; parse_jelly_to_graph is one sink with all of it; for every stream the referee accepts
+    "generic_grouped": {"sources": ["pyjelly/integrations/generic/parse.py", "pyjelly/integrations/generic/generic_sink.py", "pyjelly/parse/decode.py"],
+                        "unit": "generic_parse", "gen": "GenericParseGen", "tie": "GenericGroupedTie", "props": ["C07", "C15"],
+                        "needs": ["lookup_enc", "lookup_dec", "options", "encode", "encode_stmt", "flows", "streams", "decode", "decoder_base", "decoder", "stmt_layout",
+                                  "generic_sink", "generic_parse", "generic_serialize", "generic_round_trip"],
+                        "theorems": ["source_grouped_is_per_frame", "C07_source_generic_grouped_is_flat", "source_to_graph_is_flat",
+                                     "C07_source_generic_valid_streams"]},
     # clauses of C16 / C13 directly about the translated Decoder, for ANY adapter (no model in the statement, nothing assumed of the adapter)
     "decoder_source": {"sources": ["pyjelly/parse/decode.py"], "unit": "decode", "gen": "DecodeGen", "tie": "DecoderSource", "needs": [],
                        "needs_gen": ["lookup_dec", "options"], "props": ["C16", "C13"],
@@ -485,7 +493,8 @@ def source_ties(ctx, po: dict, pid: str) -> list[str]:
             ctx.report.notes.append("translation cross-check: the generated Gallina, evaluated by vm_compute, against the real code of this tree"
                                     + (f"; reader chain (options_from_frame, parse_jelly_flat with the generic adapters and Decoder.iter_rows): same yields and same exception classes on "
                                        f"{tx_stats.get('valid', 0)} streams of the reference encoder as they are and {tx_stats.get('mutated', 0)} with one mutation "
-                                       f"({tx_stats.get('yields', 0)} objects yielded; exceptions compared: {tx_stats.get('exceptions', {})})" if "valid" in tx_stats else "")
+                                       f"({tx_stats.get('yields', 0)} objects yielded; exceptions compared: {tx_stats.get('exceptions', {})}); the grouped parser and parse_jelly_to_graph (real: from the bytes; translated: "
+                                       f"from the first frame's options and the frames) on {tx_stats.get('grouped', 0)} of the valid streams: same statements and bindings in each of {tx_stats.get('sinks', 0)} sinks" if "valid" in tx_stats else "")
                                     + (f"; writer chain (options, TermEncoder with the generic dispatchers, TripleStream / QuadStream, flows): same frames, field for "
                                        f"field, and same exception classes on {w['streams']} random configurations and statement lists ({w['frames']} frames; "
                                        f"exceptions compared: {w['exceptions']})" if w else "")
